@@ -758,6 +758,18 @@ pub fn generate(seed: u64, run: u64, prop: &str) -> Generated {
     let mut rwf = Rng::stream(seed, run, "where_forms");
     for w in where_.iter_mut() {
         let parts: Vec<&str> = w.split(' ').collect();
+        // (floats: NOT (...) only)
+        if parts.len() == 3 && parts[2].parse::<i64>().is_err() && parts[2].parse::<f64>().is_ok() {
+            if let Some((_, c)) = cols.iter().find(|(q, _)| q == parts[0]) {
+                if matches!(c.ty, ColType::FloatRange { .. }) {
+                    let neg = match parts[1] { ">" => "<=", "<" => ">=", _ => "" };
+                    if !neg.is_empty() && rwf.chance(0.25) {
+                        *w = format!("NOT ({} {} {})", parts[0], neg, parts[2]);
+                    }
+                }
+            }
+            continue;
+        }
         if parts.len() == 3 && parts[2].parse::<i64>().is_ok() {
             if let Some((_, c)) = cols.iter().find(|(q, _)| q == parts[0]) {
                 if let ColType::IntRange { lo, hi } = &c.ty {
@@ -1194,6 +1206,28 @@ pub fn generate(seed: u64, run: u64, prop: &str) -> Generated {
             a.arg = expr;
             a.scale = scale.max(1.0);
             used.push(name);
+        }
+        // COUNT / AVG of an expression with a nullable operand: NULL if any operand is
+        for a in query.aggs.iter_mut() {
+            if !matches!(a.f, AggFn::Count | AggFn::Avg) || a.distinct || a.arg.contains('(') || a.arg.contains(' ') || !rfe.chance(0.5) {
+                continue;
+            }
+            let Some(c) = spec_of(&a.arg) else { continue };
+            if !c.ty.is_numeric() {
+                continue;
+            }
+            if let Some((q2, c2)) = numeric.iter().find(|(q2, c2)| *q2 != a.arg && (c2.optional || c.optional)) {
+                let abs_of = |c: &ColSpec| -> f64 {
+                    match &c.ty {
+                        ColType::IntRange { lo, hi } => (lo.abs().max(hi.abs())) as f64,
+                        ColType::FloatRange { lo, hi } => lo.abs().max(hi.abs()),
+                        _ => 100.0,
+                    }
+                };
+                a.scale = abs_of(&c) + abs_of(c2);
+                a.arg = format!("{} + {}", a.arg, q2);
+                used.push("nullable_sum_arg");
+            }
         }
         for k in query.keys.iter_mut() {
             if k.group_expr.is_some() || k.select_agg.is_some() || k.nullable || !rfe.chance(0.5) {
